@@ -1,7 +1,7 @@
 (* Correspondence checker for the drivers `ante` and `routes` (C07, C16): the harness emits, per generated
    transaction, its shape, the environment facts it constructed, and what the real code did; [lane_ok]
    recomputes everything from Model/Lane.v and compares. *)
-From Evm Require Import Lane CorrBase.
+From Evm Require Import Lane LaneWire CorrBase.
 Open Scope Z_scope.
 
 (* what baseapp answered: accepted by the ante handler, or rejected with ABCI (codespace id, code);
@@ -110,9 +110,39 @@ Definition tx_ok (c : txcase) : bool :=
       (Z.of_nat (length (filter (fun rm => match fst rm with TopLevel => true | _ => false end) ex)) =? ntop)
   end.
 
+(* ---- transactions given by their WIRE VALUES (Model/LaneWire.v).  The harness emits the values it encoded (byte
+   lengths of signatures / memo / payer / granter, the uint64 timeout height and gas limit, the fee coins) next to the
+   case; the shape the model is evaluated on is recomputed here from those values, and must agree with the shape the
+   harness derived on its own (which is what its direct oracle reads). *)
+Definition value_fields_eqb (a b : shape) : bool :=
+  Nat.eqb (n_sigs a) (n_sigs b) && Nat.eqb (n_infos a) (n_infos b) &&
+  Bool.eqb (payer a) (payer b) && Bool.eqb (granter a) (granter b) &&
+  memo_eqb (s_memo a) (s_memo b) && tmo_eqb (s_timeout a) (s_timeout b) &&
+  coins_eqb (fee a) (fee b) && (gas_limit a =? gas_limit b).
+
+Definition wire_of_case (v : wvals) (c : txcase) : wire :=
+  {| w_msgs := msgs (c_sh c); w_ext := ext_opts (c_sh c); w_noncrit := noncrit (c_sh c); w_vals := v |}.
+
+Definition with_shape (sh : shape) (c : txcase) : txcase :=
+  {| c_sh := sh; c_proven := c_proven c; c_sdk_vb := c_sdk_vb c; c_sdk_rest := c_sdk_rest c;
+     c_payer_can_pay := c_payer_can_pay c; c_granter_allows := c_granter_allows c;
+     c_obs := c_obs c; c_decs := c_decs c; c_exec := c_exec c |}.
+
+(* [cur] = last committed height when the transaction was built.  The driver runs simulate and check at height cur,
+   the single decorators and re-check at cur+1, deliver at cur+2: a transaction that takes the Cosmos branch of the
+   decorators must have a timeout that reads the same at all of them (the Ethereum branch refuses every non-zero value,
+   whatever the height); the shape is taken at the deliver height. *)
+Definition txw_ok (max_memo cur : Z) (v : wvals) (c : txcase) : bool :=
+  let w := wire_of_case v c in
+  let sh := abstract max_memo (cur + 2) w in
+  value_fields_eqb sh (c_sh c) &&
+  (has_single_eth (w_msgs w) || tmo_eqb (tmo_of cur (v_timeout v)) (tmo_of (cur + 2) (v_timeout v))) &&
+  tx_ok (with_shape sh c).
+
 Inductive lcase :=
 | CTable (tbl : list N)                      (* HandlerOptions.WithDefaultDisabledNestedMsgs() as type ids *)
 | CTx (c : txcase)
+| CTxW (max_memo cur : Z) (v : wvals) (c : txcase)
 | CIca (enabled allow_all : bool) (allow : list N) (signers_ok : bool) (l : list msg) (neth : Z) (ves : list N)   (* ICA host OnRecvPacket *)
 | CGov (passed : bool) (l : list msg) (neth : Z) (ves : list N).                        (* gov proposal execution *)
 
@@ -123,6 +153,7 @@ Definition lane_ok (c : lcase) : bool :=
       listN_eqb (sortN tbl) (sortN default_disabled) &&
       memN TID_ETH tbl && forallb (fun k => memN (tid_vesting k) tbl) [VCreate; VPeriodic; VPermanent]
   | CTx c => tx_ok c
+  | CTxW mx cur v c => txw_ok mx cur v c
   | CIca en all allow ok l neth ves =>
       let ex := executed_ica {| ica_enabled := en; ica_allow_all := all; ica_allow := allow |} ok l in
       (count_eth ex =? neth) && listN_eqb (sortN (vesting_targets ex)) ves
